@@ -327,7 +327,7 @@ func (L *lruCtx) putstore(put *ssa.Function, pk, bmParam ssa.Value, sameAsPutPar
 				}
 				found = true
 				first := b.Instrs[0]
-				if isStore(first) {
+				if c.fc.ipAvoid(isStore)(first) {
 					continue
 				}
 				if ww := c.fc.pathAvoiding(fn, first, isRet, c.fc.ipAvoid(isStore)); ww != nil {
@@ -367,6 +367,33 @@ func (L *lruCtx) putstore(put *ssa.Function, pk, bmParam ssa.Value, sameAsPutPar
 	}
 }
 
+// touchOf returns the predicate "this instruction moves element e to the front of the recency list": the list call
+// itself, or a call of a module helper that receives e and moves that parameter to the front on every path.
+func (L *lruCtx) touchOf(e ssa.Value, depth int) func(ssa.Instruction) bool {
+	return func(i ssa.Instruction) bool {
+		call, ok := i.(*ssa.Call)
+		if !ok {
+			return false
+		}
+		if calleeName(&call.Call) == "(*container/list.List).MoveToFront" {
+			return len(call.Call.Args) == 2 && call.Call.Args[1] == e && path(call.Call.Args[0]).lastField() == L.list
+		}
+		h := calleeFunc(&call.Call)
+		if h == nil || depth <= 0 || !L.c.w.inModule(h) || h.Blocks == nil {
+			return false
+		}
+		args := callArgs(&call.Call)
+		for k, a := range args {
+			if a == e && k < len(h.Params) {
+				if L.c.fc.mustPass(h, L.touchOf(h.Params[k], depth-1), 0) {
+					return true
+				}
+			}
+		}
+		return false
+	}
+}
+
 func (L *lruCtx) touch() {
 	const rule = "C07.touch"
 	c := L.c
@@ -388,10 +415,7 @@ func (L *lruCtx) touch() {
 			c.r.bad(rule, safeFname(fn)+": found path", "the lookup result is not used as (element, found)", []string{c.w.ipos(lks[0])})
 			continue
 		}
-		isTouch := func(i ssa.Instruction) bool {
-			call, ok := i.(*ssa.Call)
-			return ok && calleeName(&call.Call) == "(*container/list.List).MoveToFront" && len(call.Call.Args) == 2 && call.Call.Args[1] == ssa.Value(elem) && path(call.Call.Args[0]).lastField() == L.list
-		}
+		isTouch := L.touchOf(elem, 2)
 		// from the first instruction of the found branch to any return: must pass MoveToFront(elem)
 		var foundBlk *ssa.BasicBlock
 		for _, b := range fn.Blocks {
@@ -728,8 +752,11 @@ func (L *lruCtx) account() {
 		if !ok {
 			return
 		}
-		if (b.Op == token.GTR && srcField(b.X) == L.curSize && srcField(b.Y) == L.maxSize) || (b.Op == token.LSS && srcField(b.Y) == L.curSize && srcField(b.X) == L.maxSize) {
-			cmpI = b
+		switch b.Op {
+		case token.GTR, token.LSS, token.LEQ, token.GEQ:
+			if (srcField(b.X) == L.curSize && srcField(b.Y) == L.maxSize) || (srcField(b.Y) == L.curSize && srcField(b.X) == L.maxSize) {
+				cmpI = b
+			}
 		}
 	})
 	if cmpI == nil {
